@@ -83,13 +83,13 @@ def family(tier):
 
 
 def bounds(tier):
-    return {"expressions": len(family(tier)), "placements": ["derivative", "intermediate", "intermediate in another component than its states"], "grid": "V8 x V8 x {0.5, 2}"}
+    return {"expressions": len(family(tier)), "placements": ["derivative", "intermediate", "intermediate in another component than its states", "through a stateful intermediate"], "grid": "V8 x V8 x {0.5, 2}"}
 
 
 def items(tier):
     its = []
     for key, e, ns in family(tier):
-        for place in ("der", "inter", "inter-other-component"):
+        for place in ("der", "inter", "inter-other-component", "via-intermediate"):
             its.append({"key": f"{key}|{place}", "kind": "sing", "expr": e, "place": place, "nsing": ns, "sample": {"key": key, "place": place, "expr": L.render(e)}})
     return its
 
@@ -139,6 +139,13 @@ def run_item(item):
         assigns = [("dx_dt", e), ("dy_dt", L.bin_("-", v_("p"), v_("y")))]
     else:
         assigns = [("w", e), ("dx_dt", L.bin_("-", L.bin_("*", v_("w"), v_("p")), v_("x"))), ("dy_dt", L.bin_("-", v_("p"), v_("y")))]
+    if item["place"] == "via-intermediate":
+        # the singular variable is itself an intermediate that depends on the state: u = x (stateful intermediate), w = f(u)
+        def sub(a):
+            if a[0] == "var":
+                return ("var", "u") if a[1] == "x" else a
+            return tuple(sub(c) if isinstance(c, tuple) else c for c in a)
+        assigns = [("u", L.bin_("*", n_("1"), v_("x"))), ("w", sub(e)), ("dx_dt", L.bin_("-", L.bin_("*", v_("w"), v_("p")), v_("x"))), ("dy_dt", L.bin_("-", v_("p"), v_("y")))]
     comp = None
     if item["place"] == "inter-other-component":
         # the expression lives in component B, the states it is singular in are declared in A
